@@ -361,7 +361,7 @@ func (hs *clientHandshakeStateTLS13) processHelloRetryRequest() error {
 		hello.keyShares = []keyShare{{group: curveID, data: key.PublicKey().Bytes()}}
 	}
 
-	if len(hello.pskIdentities) > 0 {
+	if len(hello.pskIdentities) > 0 && hs.session != nil { // [uTLS] a fake pre_shared_key extension has identities but no session
 		pskSuite := cipherSuiteTLS13ByID(hs.session.cipherSuite)
 		if pskSuite == nil {
 			return c.sendAlert(alertInternalError)
